@@ -24,8 +24,8 @@ CASE_TIMEOUT = 10  # a logging call that does not return within 10 s is reported
 LEVEL = "exploration"
 SHARDS = 4
 RULE = (
-    "case = (nesting depth 1-3, catch depth, raise class or normal exit, extractor registration = "
-    "assignment of {none, returns fields, raises} to each of {A, B, C, Exception}, style in {with, "
+    "case = (nesting depth 1-3, catch depth, raise class or normal exit (incl. a falsy exception object and one whose bool() raises), extractor registration = "
+    "assignment of {none, returns fields, raises, returns fields named like the action's own exception/reason} to each of {A, B, C, Exception}, style in {with, "
     "context()+finish, finish without context}, extra finish calls in {0, 1, 2 (one with an exception "
     "argument)}, start fields on/off, success fields on/off, optionally while an unrelated exception is being "
     "handled (inside except / finally)); full product for depth 1, registrations restricted to 9 "
@@ -55,6 +55,18 @@ class StrRaises(Exception):
         raise RuntimeError("nope")
 
 
+class Falsy(Exception):
+    """An exception object that is falsy (len() == 0), like an empty ExceptionGroup-ish container."""
+
+    def __len__(self):
+        return 0
+
+
+class BoolRaises(Exception):
+    def __bool__(self):
+        raise RuntimeError("no truth value")
+
+
 RAISES = [
     None,
     lambda: ValueError("boom"),
@@ -68,6 +80,8 @@ RAISES = [
     lambda: A("a"),
     lambda: B("b"),
     lambda: C("c"),
+    lambda: Falsy("falsy"),
+    lambda: BoolRaises("boolraises"),
 ]
 REG_CLASSES = [A, B, C, Exception]
 
@@ -79,6 +93,10 @@ class ExtractorBoom(Exception):
 def make_extractor(cls, mode):
     if mode == 1:
         return lambda e: {"from_" + cls.__name__: cls.__name__}
+    if mode == 3:
+        # like `lambda e: dict(vars(e))` on an exception carrying .reason / .exception attributes:
+        # the action's own class name and text must still be what is recorded
+        return lambda e: {"from_" + cls.__name__: cls.__name__, "reason": "shadow", "exception": "shadow"}
 
     def bad(e):
         raise ExtractorBoom(cls.__name__)
@@ -86,7 +104,9 @@ def make_extractor(cls, mode):
     return bad
 
 
-ALL_REGS = list(itertools.product((0, 1, 2), repeat=4))
+ALL_REGS = list(itertools.product((0, 1, 2), repeat=4)) + [
+    (3, 0, 0, 0), (0, 3, 0, 0), (0, 0, 3, 0), (0, 0, 0, 3), (1, 3, 0, 0), (3, 2, 0, 0), (0, 0, 2, 3),
+]
 SMALL_REGS = [
     (0, 0, 0, 0),
     (1, 0, 0, 0),
@@ -97,6 +117,8 @@ SMALL_REGS = [
     (1, 2, 0, 0),
     (0, 0, 2, 1),
     (0, 0, 0, 2),
+    (0, 3, 0, 0),
+    (0, 0, 0, 3),
 ]
 
 
@@ -161,7 +183,7 @@ def expected_extractor(exc, reg):
             table[cls] = mode
     for klass in type(exc).__mro__:
         if klass in table:
-            if table[klass] == 1:
+            if table[klass] in (1, 3):
                 return {"from_" + klass.__name__: klass.__name__}, False
             return {}, True
         if klass is OSError:  # eliot's built-in registration for EnvironmentError
